@@ -11,6 +11,15 @@ TB = ("Trusted: Lean 4.33 kernel; axioms ⊆ {propext, Classical.choice, Quot.so
       "(constants/tables regenerated from /repo) and the differential correspondence stream; ")
 
 NOTES = {
+    "C05": {
+        "text": "Kernel-checked for every 35-byte config (all 256 kind bytes, any 32 config bytes, any flag bytes), all instruction data and account lists, and *any* PDA function: kind 0 resolves to the "
+                "stored key; kinds 1 / >=128 resolve exactly to pda(materialised seeds, executing or indexed program) with each seed kind's range checks spelled out (iff); kind 2 to the 32 bytes at the "
+                "indexed position; kinds 3..127 are rejected; flags are always the configured ones; resolution never panics (missing index/range, pda = none, unknown kind all give errors); constructors "
+                "store exactly the seed list / key / key-data / index+128 and reject index >= 128.",
+        "design_ref": "§5 C05",
+        "note": TB + "Solana's PDA search is a parameter (validated executable instance in SplModel/Ed25519.lean).",
+        "technique": "Lean 4 theorem parametric in the PDA function (kernel-checked) + differential correspondence on final derived keys",
+    },
     "C01": {
         "text": "Kernel-checked refinement: every mutating operation of the model (alloc, init_value, realloc, byte/typed write, var-len pack, alloc_and_pack) on the canonical bytes of an abstract entry "
                 "list yields the canonical bytes of the abstract successor and the abstract outcome (range, repetition number, success/failure), for every buffer size, 8-byte non-zero tag, length and "
